@@ -106,7 +106,7 @@ fn interop_variant<V: Fv, R: RefImpl>(seed: u64, nkeys: usize, nmsgs: usize, hea
             light.emit(cross("pk-from-ref-sk-equals-ref-pk", V::N, V::pk_to_bytes(&V::pk_from_sk(k)) == rpkb, ""));
         }
         for mi in 0..nmsgs {
-            let mut msg = vec![0u8; [0usize, 1, 33, 136, 500][(ki + mi) % 5]];
+            let mut msg = vec![0u8; [0usize, 1, 33, 136, 500, 95, 96, 97, 232, 70000][(ki * 5 + mi) % 10]];
             rng.fill_bytes(&mut msg);
             // (1) signed here (our key) -> verified by the reference under our public-key bytes
             let sig = V::sig_to_bytes(&V::sign(&msg, &sk));
@@ -226,6 +226,49 @@ fn interop_corpus_keys<V: Fv, R: RefImpl>(count: usize, heavy: &mut Shards, ligh
     }
 }
 
+/// Signatures made here on scripted randomness (first candidate just inside the bound, compressed s2 near or at the budget)
+/// must be accepted by the reference too.
+fn interop_scripted<V: Fv, R: RefImpl>(seed: u64, tries: usize, heavy: &mut Shards, light: &mut Shards) {
+    use falcon_rust::verif::Plan;
+    let mut rng = rng_for(seed, &format!("c16-scripted-{}", V::N));
+    let (sk, pk) = V::keygen(rng.gen());
+    let pkb = V::pk_to_bytes(&pk);
+    const RCDT012: [u128; 3] = [3024686241123004913666, 1564742784480091954050, 636254429462080897535];
+    let mut t: f64 = 0.65;
+    let (mut sent, mut fails, mut tight) = (0usize, 0usize, 0usize);
+    for k in 0..tries {
+        let mut sc = vec![0u8; 72];
+        rng.fill_bytes(&mut sc);
+        for _ in 0..2 * V::N {
+            let x: f64 = rng.gen();
+            let z0 = if x < t / 3.0 { 2 } else if x < t { 1 } else { 0 };
+            sc.extend(&RCDT012[z0].to_be_bytes()[7..16]);
+            sc.push(rng.gen::<u8>() & 1);
+            sc.extend([0u8; 7]);
+        }
+        let msg = format!("scripted {}", k).into_bytes();
+        let plan = Plan { record: true, script: sc, ..Default::default() };
+        let (sigb, ev, _) = crate::d_sign::sign_with_plan::<V>(&msg, &sk, plan);
+        let attempts = ev.iter().filter(|e| matches!(e, falcon_rust::verif::Event::SignNorm { .. })).count();
+        let step = 0.02 / (1.0 + k as f64 / 200.0).sqrt();
+        if attempts == 1 { t = (t + step).min(1.0) } else { t = (t - step).max(0.0) }
+        if let Some(b) = sigb {
+            let slack = b.iter().rev().take_while(|x| **x == 0).count() * 8 + b.iter().rev().find(|x| **x != 0).map(|x| x.trailing_zeros() as usize).unwrap_or(0);
+            if attempts == 1 && (slack <= 16 || k % 50 == 0) {
+                sent += 1;
+                tight += (slack == 0) as usize;
+                if !R::verify(&msg, &to_ref_sig(&b), &pkb) {
+                    fails += 1;
+                    if fails <= 3 {
+                        heavy.emit(honest_event::<V>(&msg, &b, &pkb, "scripted-ref-rejected-ours"));
+                    }
+                }
+            }
+        }
+    }
+    light.emit(cross("ref-verifies-our-scripted-signatures", V::N, fails == 0, &format!("{} of {} rejected ({} exact fits)", fails, sent, tight)));
+}
+
 pub fn c16(args: &Args) {
     let seed = args.num("--seed", 1);
     let thorough = args.thorough();
@@ -236,6 +279,8 @@ pub fn c16(args: &Args) {
     interop_variant::<V1024, Ref1024>(seed, if thorough { 4 } else { 1 }, if thorough { 8 } else { 3 }, &mut heavy, &mut light);
     interop_corpus_keys::<V512, Ref512>(if thorough { 8 } else { 4 }, &mut heavy, &mut light);
     interop_corpus_keys::<V1024, Ref1024>(if thorough { 8 } else { 2 }, &mut heavy, &mut light);
+    interop_scripted::<V512, Ref512>(seed, if thorough { 12000 } else { 1500 }, &mut heavy, &mut light);
+    interop_scripted::<V1024, Ref1024>(seed, if thorough { 12000 } else { 1500 }, &mut heavy, &mut light);
     interop_retry_paths::<V512, Ref512>(seed, &mut heavy, &mut light);
     interop_retry_paths::<V1024, Ref1024>(seed, &mut heavy, &mut light);
     interop_bulk::<V512, Ref512>(seed, if thorough { 40000 } else { 3000 }, &mut heavy, &mut light);
